@@ -69,10 +69,40 @@ def seeded_table():
     return "\n".join(rows)
 
 
+def refactors_table():
+    rows = ["| refactoring | what was restructured | suite | verdict of the 19 checks |", "|---|---|---|---|"]
+    d = os.path.join(VERIF, "refactors")
+    for name in sorted(os.listdir(d)):
+        mp = os.path.join(d, name, "meta.json")
+        if not os.path.exists(mp):
+            continue
+        m = json.load(open(mp))
+        title = ""
+        np_ = os.path.join(d, name, "notes.md")
+        if os.path.exists(np_):
+            title = re.sub(r"^#\s*", "", first_line(np_))
+            title = re.sub(r"^refac_\d\s*[—:-]*\s*", "", title, flags=re.I)
+            title = re.sub(r"^C\d+ refac(toring)?_? ?\d\s*[—:-]*\s*", "", title, flags=re.I)
+        al = m.get("alarms", {})
+        if al:
+            parts = []
+            for pid, r in sorted(al.items()):
+                rules = sorted(set(k.split("|")[0] for k in r.get("violations", [])))
+                parts.append(f"{pid}: {', '.join(rules)}")
+            verdict = "**false alarm** — " + "; ".join(parts) + (f" ({m['residual_reason']})" if m.get("residual_reason") else "")
+        else:
+            once = [x for x in m.get("alarmed_once", [])]
+            verdict = "silent" + (f" (after generalising {', '.join(once)})" if once else "")
+        su = m.get("suite") or {}
+        suite = f"{su.get('passed', '?')} passed" if su else "as reported by the author"
+        rows.append(f"| {name} | {title[:120]} | {suite} | {verdict} |")
+    return "\n".join(rows)
+
+
 def main():
     p = os.path.join(VERIF, "DESIGN.md")
     s = open(p).read()
-    for key, fn in (("mutants", mutants_table), ("equiv", equiv_table), ("seeded", seeded_table)):
+    for key, fn in (("mutants", mutants_table), ("equiv", equiv_table), ("seeded", seeded_table), ("refactors", refactors_table)):
         a, b = f"<!-- BEGIN:{key} -->", f"<!-- END:{key} -->"
         if a in s and b in s:
             i, j = s.index(a) + len(a), s.index(b)
